@@ -12,7 +12,7 @@ import resource
 import subprocess
 import time
 
-MEM_KB = int(os.environ.get('VERIF_MEM_KB', '12000000'))
+MEM_KB = int(os.environ.get('VERIF_MEM_KB', '24000000'))
 
 
 def _limits():
